@@ -26,6 +26,7 @@ theorem run_tree (cfg : Cfg K V) (p : Prog K V C E α) (s : St K V) (m : Vol C V
   | set k v κ ih => exact (ih _ _ _).trans (set_data cfg s k v).1
   | del k κ ih => exact (ih _ _).trans (del_data cfg s k).1
   | iter lo hi asc κ ih => exact (ih _ _ _).trans (iter_gasOnly cfg s lo hi asc).1
+  | iterAll lo hi asc κ ih => exact (ih _ _ _).trans (iterAll_gasOnly cfg s lo hi asc).1
   | getv ver k κ ih => exact ih _ _ _
   | gas κ ih => exact ih _ _ _
   | burn a κ ih => exact ih _ _
@@ -44,6 +45,7 @@ theorem run_env (cfg : Cfg K V) (p : Prog K V C E α) (h : p.EnvFree) (s : St K 
   | set k v κ ih => exact ih _ (h _) _ _
   | del k κ ih => exact ih h _ _
   | iter lo hi asc κ ih => exact ih _ (h _) _ _
+  | iterAll lo hi asc κ ih => exact ih _ (h _) _ _
   | getv ver k κ ih => exact ih _ (h _) _ _
   | gas κ ih => exact ih _ (h _) _ _
   | burn a κ ih => exact ih h _ _
@@ -62,6 +64,7 @@ theorem run_novset (cfg : Cfg K V) (p : Prog K V C E α) (h : p.NoVset) (s : St 
   | set k v κ ih => exact ih _ (h _) _ _
   | del k κ ih => exact ih h _ _
   | iter lo hi asc κ ih => exact ih _ (h _) _ _
+  | iterAll lo hi asc κ ih => exact ih _ (h _) _ _
   | getv ver k κ ih => exact ih _ (h _) _ _
   | gas κ ih => exact ih _ (h _) _ _
   | burn a κ ih => exact ih h _ _
@@ -515,63 +518,6 @@ theorem commit_at_boundary (t : Tree K V) (wf : t.WF) :
     exact hf.1
   · rw [hf.2.2.1, savedPrefixLen_append_save]
     exact (List.take_of_length_le (by simp)).symm
-
-/-! ### insertion sort -/
-
-theorem insertKey_perm (lt : K → K → Bool) (k : K) (l : List K) :
-    (insertKey lt k l).Perm (k :: l) := by
-  induction l with
-  | nil => exact List.Perm.refl _
-  | cons h t ih =>
-    unfold insertKey
-    split
-    · exact List.Perm.refl _
-    · exact (List.Perm.cons h ih).trans (List.Perm.swap k h t)
-
-theorem sortKeys_perm (lt : K → K → Bool) (l : List K) : (sortKeys lt l).Perm l := by
-  induction l with
-  | nil => exact List.Perm.refl _
-  | cons h t ih =>
-    show (insertKey lt h (sortKeys lt t)).Perm (h :: t)
-    exact (insertKey_perm lt h _).trans (List.Perm.cons h ih)
-
-theorem insertKey_sorted (lt : K → K → Bool)
-    (irrefl : ∀ a, lt a a = false)
-    (trans : ∀ a b c, lt a b = true → lt b c = true → lt a c = true)
-    (k : K) (l : List K) (hl : l.Pairwise (fun a b => lt b a = false)) :
-    (insertKey lt k l).Pairwise (fun a b => lt b a = false) := by
-  induction l with
-  | nil => simp [insertKey]
-  | cons h t ih =>
-    have hl' := List.pairwise_cons.mp hl
-    unfold insertKey
-    split
-    · next hkh =>
-      refine List.pairwise_cons.mpr ⟨?_, hl⟩
-      intro b hb
-      rcases List.mem_cons.mp hb with rfl | hb
-      · cases hbk : lt b k with
-        | false => rfl
-        | true => have := trans _ _ _ hkh hbk; rw [irrefl] at this; cases this
-      · cases hbk : lt b k with
-        | false => rfl
-        | true =>
-          have := trans _ _ _ hbk hkh
-          rw [hl'.1 b hb] at this; cases this
-    · next hkh =>
-      refine List.pairwise_cons.mpr ⟨?_, ih hl'.2⟩
-      intro b hb
-      rcases List.mem_cons.mp ((insertKey_perm lt k t).subset hb) with rfl | hb
-      · simpa using hkh
-      · exact hl'.1 b hb
-
-theorem sortKeys_sorted (lt : K → K → Bool)
-    (irrefl : ∀ a, lt a a = false)
-    (trans : ∀ a b c, lt a b = true → lt b c = true → lt a c = true)
-    (l : List K) : (sortKeys lt l).Pairwise (fun a b => lt b a = false) := by
-  induction l with
-  | nil => exact List.Pairwise.nil
-  | cons h t ih => exact insertKey_sorted lt irrefl trans h _ ih
 
 /-! ### crash -/
 
